@@ -865,6 +865,9 @@ static void SwitchTo_68rs08(void) {
     SwitchFrom     = SwitchFrom_68rs08;
     InitFields();
     AddMoto16PseudoONOFF();
+
+    /* the default of this target, not what the previous one left behind */
+    SetFlag(&DoPadding, DoPaddingName, False);
 }
 
 void code68rs08_init(void) {
